@@ -349,6 +349,9 @@ def run(ctx):
     ctx.require(n_ps >= 2, "fewer than 2 writers of Time._pushed_state found (%d)" % n_ps)
 
     hash_state_agreement(ctx, "R19.g")
+    from checks.shared import dynamic_cache_writers, time_fn_model
+    dynamic_cache_writers(ctx, "R19.w")
+    time_fn_model(ctx, "R19.t")
 
 
 def hash_state_agreement(ctx, rule):
@@ -396,6 +399,3 @@ def hash_state_agreement(ctx, rule):
                  key=hset.qualname + "::digest-inputs-differ", input="gen = UniformRandom(seed=42); copy.deepcopy(gen)() != gen() at the same time")
     else:
         ctx.ok(rule, hset, hset.node, "__init__ and __setstate__ feed the md5 state the same %d input(s)" % len(f_init))
-    from checks.shared import dynamic_cache_writers, time_fn_model
-    dynamic_cache_writers(ctx, "R19.w")
-    time_fn_model(ctx, "R19.t")
